@@ -18,8 +18,8 @@ from ..refcalc_neutron import OUTPUTS
 PROPERTY = "C17"
 RULE = ("1-6 materials drawn (with repeats) from 1-4 generated compounds (flat dicts or rendered derivation trees over "
         "atoms with neutron data; energy dependent atoms 5/17 of the atom draws), weights = 0 | 1..12 | 1e-9..1e6 "
-        "(all-zero vectors included, integer and float arrays), density = 0 | (0, 25], wavelength scalar / length-1 / "
-        "length-n list or array in [0.05, 50] A. oracle = neutron_sld({atom: sum_i w_i n_ik}, density, wavelength): "
+        "(all-zero vectors included, integer and float arrays), density = 0 | (0, 25], wavelength scalar (float, int, np.int64) / length-1 / "
+        "length-n list, tuple or array in [0.05, 50] A, also integer-valued lists/tuples/int32/int64 arrays. oracle = neutron_sld({atom: sum_i w_i n_ik}, density, wavelength): "
         "three outputs at rel 1e-10 + 2e-13 x operand scale; scalar output for scalar wavelength, wavelength's shape "
         "otherwise; zero total weight or zero density -> all three equal 0. Then 1-3 further calls of the SAME "
         "calculator with the SAME weights ndarray modified in place (set an element, scale, zero one/all) or with only "
@@ -37,12 +37,12 @@ SLD = OUTPUTS[:3]
 
 
 def _wavelength_arg(np, wv):
-    lams = wv["lams"]
-    if wv["form"] == "scalar":
-        return lams[0], (), lams[:1]
-    if wv["form"] == "list":
-        return list(lams), (len(lams),), lams
-    return np.array(lams, dtype=float), (len(lams),), lams
+    """(argument, expected shape, wavelengths the oracle uses); integer forms carry whole Angstroms"""
+    form = wv["form"]
+    lams = wv["lams"][:1] if form in ng.SCALAR_FORMS else wv["lams"]
+    vals, ref = ng.wl_values(form, "wavelength", lams)
+    arg, shape = ng.wl_object(form, vals)
+    return arg, shape, ref
 
 
 def apply_step(np, weights, rho, step):
@@ -187,7 +187,8 @@ def strat():
                        st.floats(-9, 6).map(lambda x: float("%.6g" % 10 ** x)),
                        st.floats(-2, 2).map(lambda x: float("%.6g" % 10 ** x)), st.just(0))
     lam = ng.one_wavelength()
-    wl = st.tuples(st.sampled_from(["scalar", "list", "array", "list"]),
+    wl = st.tuples(st.sampled_from(["scalar", "list", "array", "list", "scalar", "int", "np.int64", "tuple",
+                                    "intlist", "intlist", "intarray32", "intarray64", "inttuple"]),
                    st.one_of(st.lists(lam, min_size=1, max_size=1), st.lists(lam, min_size=2, max_size=6),
                              st.lists(lam, min_size=2, max_size=4))).map(lambda t: {"form": t[0], "lams": t[1]})
     idx = st.integers(0, 11)
